@@ -187,18 +187,18 @@ Definition sd_reach (c : sd_cfg) : sd_sys -> Prop := sd_reachable sd_sys (sd_suc
 
 (* the path to "both closed" uses only deliveries, timer expiries and — once the peer is gone — the closing of the
    own transport: no API call, no further loss *)
-Definition sd_eventually_closed : sd_sys -> Prop := sd_can_reach sd_sys sd_goal sd_lsuccs.
+Definition sd_eventually_closed : sd_sys -> Prop := sd_can_reach sd_sys sd_both_closed sd_lsuccs.
 
 (* one boolean evaluated by vm_compute per configuration; the reachable set is computed once *)
 Definition sd_all_checks (c : sd_cfg) (size : Z) : bool :=
   let m := sd_reach_set c in
   let elems := sd_selems sd_sys m in
-  let rm := sd_rank_compute sd_sys sd_sys_eqb sd_key sd_goal sd_lsuccs 200 elems in
+  let rm := sd_rank_compute sd_sys sd_sys_eqb sd_key sd_both_closed sd_lsuccs 200 elems in
   forallb (fun x => sd_smem sd_sys sd_sys_eqb sd_key x m) sd_inits &&
   sd_closed_check sd_sys sd_sys_eqb sd_key (sd_succs c) m &&
   forallb (fun s => sd_sys_safe s && sd_sys_inv s) elems &&
-  sd_rank_check sd_sys sd_sys_eqb sd_key sd_goal sd_lsuccs rm &&
-  sd_ranked_all sd_sys sd_sys_eqb sd_key elems rm &&
+  sd_rank_check sd_sys sd_sys_eqb sd_key sd_both_closed sd_lsuccs rm &&
+  sd_ranked_all sd_sys sd_sys_eqb sd_key (filter sd_started elems) rm &&
   (Z.of_nat (length elems) =? size).
 
 Lemma sd_all_checks_size c n : sd_all_checks c n = true -> Z.of_nat (sd_set_size c) = n.
@@ -209,7 +209,7 @@ Qed.
 Lemma sd_all_checks_sound c n :
   sd_all_checks c n = true ->
   forall s, sd_reach c s ->
-    sd_sys_safe s = true /\ sd_sys_inv s = true /\ sd_eventually_closed s.
+    sd_sys_safe s = true /\ sd_sys_inv s = true /\ (sd_started s = true -> sd_eventually_closed s).
 Proof.
   unfold sd_all_checks. cbv zeta. intros H s Hs.
   apply andb_true_iff in H. destruct H as [H _].
@@ -217,8 +217,10 @@ Proof.
   apply andb_true_iff in H. destruct H as [H Hp]. apply andb_true_iff in H. destruct H as [Hi Hc].
   pose proof (sd_forall_sound sd_sys sd_sys_eqb sd_key sd_sys_eqb_eq (sd_succs c) sd_inits _ _ Hi Hc Hp s Hs) as P.
   pose proof (sd_closed_sound sd_sys sd_sys_eqb sd_key sd_sys_eqb_eq (sd_succs c) sd_inits _ Hi Hc s Hs) as M.
-  pose proof (sd_ranked_can_reach sd_sys sd_sys_eqb sd_key sd_sys_eqb_eq sd_goal sd_lsuccs _ _ Hr Ha s
-                (sd_smem_elems sd_sys sd_sys_eqb sd_key sd_sys_eqb_eq _ _ M)) as R.
+  pose proof (sd_smem_elems sd_sys sd_sys_eqb sd_key sd_sys_eqb_eq _ _ M) as E.
+  assert (R : sd_started s = true -> sd_eventually_closed s).
+  { intros St. apply (sd_ranked_can_reach sd_sys sd_sys_eqb sd_key sd_sys_eqb_eq sd_both_closed sd_lsuccs _ _ Hr Ha s).
+    apply filter_In. split; assumption. }
   apply andb_true_iff in P. destruct P as [P1 P2]. repeat split; assumption.
 Qed.
 
@@ -230,5 +232,5 @@ Lemma sd_size_one : Z.of_nat (sd_set_size sd_cfg_one) = 3153.
 Proof. exact (sd_all_checks_size _ _ sd_checks_one). Qed.
 
 Lemma sd_one_sided : forall s, sd_reach sd_cfg_one s ->
-  sd_sys_safe s = true /\ sd_sys_inv s = true /\ sd_eventually_closed s.
+  sd_sys_safe s = true /\ sd_sys_inv s = true /\ (sd_started s = true -> sd_eventually_closed s).
 Proof. exact (sd_all_checks_sound _ _ sd_checks_one). Qed.
